@@ -5,6 +5,9 @@ V = os.path.dirname(os.path.dirname(os.path.abspath(__file__)))
 props = [json.loads(l) for l in open(os.path.join(V, "properties.jsonl"))]
 
 CHECKS = {
+ "C19": dict(category="exploration", technique="exhaustive enumeration of all ordered token pairs x adjacency constructions, re-lexed with an independent pp-token lexer; -E idempotence; -S(original) == -S(-E output) on a closed corpus",
+   text="All 71x71 ordered pairs of a token alphabet covering every punctuator-prefix relation and every lexical class are made adjacent in 11 (thorough 16) ways the preprocessor can create adjacency; the -E text must re-lex to exactly the two tokens, -E of the -E output must be byte-identical, and for the tree's own sources, its test programs and ~970 generated operator-adjacency programs compiling the -E output must give the same assembly (modulo .loc/.file) as compiling the original.",
+   note="Trusts the ~60-line pp-token lexer in models/pplex.py (C11 6.4, no digraphs); pp-numbers that are not valid constants are left to C09; the -S comparison is chibicc against itself."),
  "C01": dict(category="exploration", technique="bounded-exhaustive enumeration of expression forms x operand-type tuples x threshold value grids, twin-compiled (chibicc vs gcc -O0) and compared with a 128-bit C11 reference model",
    text="Every operator (18 binary, 4 unary, casts, ?:, comma, 10 compound assignments, ++/--), every pair of the nine integer types, every conversion context (initializer, assignment, argument, return, eight kinds of condition), two-level compositions and pointer arithmetic for seven element sizes are enumerated completely; each case is executed on a value grid holding every width threshold of its operand types (all 256 values for 8-bit types) and its static type is read back through _Generic/sizeof. A tuple is judged only when the C11 model and gcc agree and the model says the result is defined.",
    note="Trusts gcc 12 -O0 and the 128-bit model where they agree; implementation-defined conversions are fixed as the x86-64 platform documents them; values between grid points of >=16-bit types and nesting deeper than two operators are not explored."),
